@@ -127,6 +127,11 @@ def run(chk, prog):
     chk.require(okw, "FRAME-ORDER", "_record.inner/loop", "one frame per resumed continuation, in resume order; the tag index is the frame just appended", derived=der,
                 expected="while next: (tag, frame) = next; sequence.append(frame); if tag: jump_points[tag] = len(sequence) - 1; retval, next = time_travel(frame.cont)(*frame.args)", where=f"{m.rel}:{inner.lineno}")
     rets = [n for n in ast.walk(inner) if isinstance(n, ast.Return)]
+    if len(rets) == 1 and isinstance(rets[0].value, ast.Name):
+        # `result = (...); return result`: look through a temporary assigned exactly once
+        asg = [n for n in ast.walk(inner) if isinstance(n, ast.Assign) and len(n.targets) == 1 and isinstance(n.targets[0], ast.Name) and n.targets[0].id == rets[0].value.id]
+        if len(asg) == 1:
+            rets = [ast.Return(value=asg[0].value)]
     okz = False
     if len(rets) == 1 and isinstance(rets[0].value, ast.Tuple) and len(rets[0].value.elts) == 2 and isinstance(rets[0].value.elts[1], ast.Call) and roles:
         c = rets[0].value.elts[1]
